@@ -58,6 +58,8 @@ pub trait FieldApi: Copy + Send + 'static {
     fn set_cond(d: &mut Self, a: &Self, ctl: u32);
     fn select(a0: &Self, a1: &Self, ctl: u32) -> Self;
     fn cswap(a: &mut Self, b: &mut Self, ctl: u32);
+    /// constant-time lookup of `width` consecutive entries at index j in a table of 16*width elements
+    fn lookup16(_tab: &[Self], _width: usize, _j: u32) -> Option<Vec<Self>> { None }
 }
 
 fn limbs4(b: &[u8]) -> [u64; 4] {
@@ -256,6 +258,10 @@ macro_rules! gf255_impl {
             sqrt_both!();
             split_i128!();
             enc32!($t);
+            fn lookup16(tab: &[Self], width: usize, j: u32) -> Option<Vec<Self>> {
+                Some(if width == 3 { <$t>::lookup16_x3(<&[$t; 48]>::try_from(tab).unwrap(), j).to_vec() }
+                     else { <$t>::lookup16_x4(<&[$t; 64]>::try_from(tab).unwrap(), j).to_vec() })
+            }
         }
     };
 }
@@ -774,6 +780,18 @@ impl<'a, F: FieldApi> Mach<'a, F> {
         }
     }
 
+    // table = registers cycled to 16*width entries; result: width consecutive entries (zeros if j > 15)
+    fn lookup(&mut self, width: usize, j: u32) {
+        let rs: Vec<i64> = (0..16 * width).map(|i| ((i * 5 + i / NREG) % NREG) as i64).collect();
+        let tab: Vec<F> = rs.iter().map(|&i| self.regs[i as usize]).collect();
+        let e = Ev::new("lookup16").nn("rs", &rs).n("width", width as i64).b("j", &trim(&j.to_le_bytes()));
+        match guarded(move || F::lookup16(&tab, width, j).map(|v| v.iter().map(|x| F::encode(*x)).collect::<Vec<_>>())) {
+            Ok(None) => {}
+            Ok(Some(outs)) => self.tr.emit(e.bb("outs", &outs)),
+            Err(m) => self.tr.emit(e.s("panic", &m)),
+        }
+    }
+
     fn batch_invert(&mut self, rs: &[usize]) -> bool {
         let mut xx: Vec<F> = rs.iter().map(|&i| self.regs[i]).collect();
         let idx: Vec<i64> = rs.iter().map(|&i| i as i64).collect();
@@ -880,10 +898,10 @@ fn draw(rng: &mut Rng, profile: &str) -> usize {
         "ring" => *rng.pick(&[0, 1, 2, 3, 4, 5, 6, 7, 8, 9, 10, 11, 12, 13, 14, 15, 16, 17, 18, 19,
                               20, 21, 22, 23, 24, 25, 26, 27, 28, 29, 33, 34]),
         // C20: selection primitives between differently represented values
-        "select" => *rng.pick(&[0, 1, 4, 9, 14, 27, 28, 28, 29, 29, 30, 30, 30, 31, 31, 31, 32, 32, 32, 33, 34]),
+        "select" => *rng.pick(&[0, 1, 4, 9, 14, 27, 28, 28, 29, 29, 30, 30, 30, 31, 31, 31, 32, 32, 32, 33, 34, 40, 40]),
         // C12: division-like operations fed by ring results
         "div" => *rng.pick(&[0, 4, 9, 14, 21, 27, 35, 35, 35, 36, 36, 37, 37, 38, 38, 39]),
-        _ => rng.below(40),
+        _ => rng.below(41),
     }
 }
 
@@ -943,6 +961,11 @@ fn random_op<F: FieldApi>(m: &mut Mach<F>, rng: &mut Rng, q: &BigUint, profile: 
             let mut rs: Vec<usize> = Vec::new();
             while rs.len() < n { let r = rng.below(NREG); if !rs.contains(&r) { rs.push(r); } }
             m.batch_invert(&rs)
+        }
+        40 => {
+            let j = *rng.pick(&[0u32, 1, 2, 7, 14, 15, 16, 17, 31, 32, 255, 256, 1 << 16, 1 << 31, u32::MAX, v & 15, v & 15]);
+            m.lookup(if v & 16 == 0 { 3 } else { 4 }, j);
+            true
         }
         _ => m.un("invert", d, a, v),
     }
